@@ -467,3 +467,80 @@ Proof.
   intros Htot. apply invariant_rule; [apply inv1_init; assumption|].
   intros t s s' Hs Hst. eapply inv1_step; eauto.
 Qed.
+
+(* ------------------------------------------------------------------ capacities never change *)
+Lemma map_cap_set_nth ss i sh sh' : nth_error ss i = Some sh -> cap sh' = cap sh -> map cap (set_nth ss i sh') = map cap ss.
+Proof.
+  revert i; induction ss as [|a l IH]; intros [|i] H Hc; cbn [nth_error set_nth map] in *; try discriminate.
+  - inversion H; subst. rewrite Hc. reflexivity.
+  - f_equal. eapply IH; eauto.
+Qed.
+
+Lemma caps_step t s s' : inv1 s -> step t s = Some s' -> map cap (shs s') = map cap (shs s).
+Proof.
+  intros Hinv H. unfold step in H.
+  destruct (lget (thr s) t) as [th|] eqn:Hth; [|discriminate].
+  assert (Hso := proj1 Hinv).
+  destruct (pc th) eqn:Hpc.
+  all: try (unfold start_op in H).
+  all: brk H.
+  all: try (inversion H; subst s'; clear H).
+  all: try match goal with |- context [match ents ?x with _ => _ end] => destruct (ents x) eqn:? end.
+  all: cbn [shs upd upd_th upd_sh mark_race set_glast set_gleak]; try reflexivity.
+  all: try match goal with
+       | Hn : nth_error (shs _) ?i = Some ?sh |- _ =>
+           let Hwf := fresh "Hwf" in let Hkeys := fresh "Hkeys" in
+           destruct (proj2 Hso i sh Hn) as (Hwf & Hkeys)
+       end.
+  all: try match goal with
+       | Er : evict_remove ?x = ENotIndexed _ |- _ => exfalso; exact (proj1 (evict_remove_never x _ Hwf) Er)
+       | Er : evict_remove ?x = EPanicked _ |- _ => exfalso; exact (proj2 (evict_remove_never x _ Hwf) Er)
+       | Er : evict_remove ?x = ERemoved _ |- _ =>
+           destruct (evict_removed_facts _ _ Hwf Er) as (Hwf' & Hw' & Hc' & Hlen' & Hk' & Hi')
+       | Er : evict_remove ?x = ENothing _ |- _ =>
+           destruct (evict_nothing_facts _ _ Hwf Er) as (Hwf' & Hw' & Hc' & Hlen' & Hk' & Hi')
+       | Hp : probe_shard ?sh ?k = PrHit ?sh' |- _ =>
+           let j := fresh "j" in let Hw := fresh "Hw" in let Hj := fresh "Hj" in let Hh := fresh "Hh" in
+           destruct (probe_hit _ _ _ Hp) as (Hw & j & Hj & Hh);
+           destruct (hit_entry_spec _ _ _ Hwf Hh) as (Hwf' & Hw' & Hi' & Hc' & Hlen' & Hk')
+       | Hh : hit_entry _ _ = Some _ |- _ =>
+           destruct (hit_entry_spec _ _ _ Hwf Hh) as (Hwf' & Hw' & Hi' & Hc' & Hlen' & Hk')
+       | Hr : remove ?x ?n = Some ?y |- _ =>
+           destruct (remove_wf _ _ _ Hwf Hr) as (_ & _ & Hc' & _)
+       end.
+  all: eapply map_cap_set_nth; [eassumption | first [reflexivity | exact Hc']].
+Qed.
+
+Lemma init_caps total : map cap (init_shards total) =
+  map (fun i => (Nat.div total NSH + (if Nat.ltb i (Nat.modulo total NSH) then 1 else 0))%nat) (seq O NSH).
+Proof. unfold init_shards. rewrite map_map. reflexivity. Qed.
+
+Theorem caps_run total limit c0 o progs sched :
+  (NSH <= total)%nat ->
+  map cap (shs (run step sched (init_st total limit c0 o progs))) = map cap (init_shards total).
+Proof.
+  intros Htot.
+  assert (H : (fun s => inv1 s /\ map cap (shs s) = map cap (init_shards total)) (run step sched (init_st total limit c0 o progs))).
+  { apply invariant_rule.
+    - split; [apply inv1_init; assumption | reflexivity].
+    - intros t s s' (A & B) Hst. split; [eapply inv1_step; eauto|]. rewrite (caps_step _ _ _ A Hst). exact B. }
+  apply H.
+Qed.
+
+(* capacity, as a number: shard i never holds more than its configured share of the total *)
+Corollary capacity_run total limit c0 o progs sched i sh :
+  (NSH <= total)%nat ->
+  nth_error (shs (run step sched (init_st total limit c0 o progs))) i = Some sh ->
+  (length (ents sh) <= Nat.div total NSH + (if Nat.ltb i (Nat.modulo total NSH) then 1 else 0))%nat.
+Proof.
+  intros Htot Hn.
+  destruct (proj2 (proj1 (inv1_run total limit c0 o progs sched Htot)) i sh Hn) as ((_ & _ & Hcap) & _).
+  assert (Hc := caps_run total limit c0 o progs sched Htot). rewrite init_caps in Hc.
+  assert (Q : nth_error (map cap (shs (run step sched (init_st total limit c0 o progs)))) i = Some (cap sh)) by (apply map_nth_error; exact Hn).
+  rewrite Hc in Q. rewrite nth_error_map in Q.
+  destruct (nth_error (seq 0 NSH) i) as [j|] eqn:Hj; [|discriminate]. cbn [option_map] in Q.
+  assert (Q' := f_equal (fun o => match o with Some x => x | None => O end) Q). cbv beta iota in Q'.
+  assert (j = i). { assert (Hlt : (i < length (seq 0 NSH))%nat) by (apply nth_error_Some; congruence).
+    rewrite seq_length in Hlt. rewrite (nth_error_nth' _ O) in Hj by (rewrite seq_length; exact Hlt). rewrite seq_nth in Hj by exact Hlt. inversion Hj. lia. }
+  subst j. unfold cap_ok in Hcap. rewrite Q'. exact Hcap.
+Qed.
